@@ -93,7 +93,7 @@ func VerifC13Literal(args []string) {
 		conf.VariableKeyMap["s"] = 1
 		conf.VariableKeyMap["a"] = 2
 		conf.VariableKeyMap["b"] = 3
-		for i, o := range optimizations {
+		for i, o := range vfOptimizations {
 			conf.CompileOptions[o] = opts[i] == '1'
 		}
 		return conf
